@@ -22,7 +22,7 @@ ASSUMPTIONS = ["strict reader mc/rp66.py", "reference model mc/model.py", "an ex
                "for out-of-domain windows a successful write must contain exactly rows [max(from,0), min(to,rows))"]
 
 FAMILIES = ['rows', 'dtype', 'ndim', 'missing', 'longtext', 'nonascii', 'intrange', 'structure', 'window', 'empty',
-            'unusual']
+            'unusual', 'fraction']
 
 
 def shards(tier):
@@ -118,6 +118,12 @@ def cases(shard, tier):
                            ('axis-coordinates', [[0] * k + [2 ** 31] for k in (0, 1, 15, 16, 199)] + [[-2 ** 31 - 1] + [5] * 19]),
                            ('parameter-values', [[1] * k + [2 ** 31] for k in (0, 15, 16, 127)])):
             for v in vals:
+                yield {'family': fam, 'ctx': ctx, 'what': what, 'v': v, 'must': True}
+    elif fam == 'fraction':
+        # numbers with a fractional part, of several numeric types, for attributes that hold integers
+        for what in ('file_number', 'descent_number', 'dimension', 'element_limit', 'sample_count', 'encrypted'):
+            for v in (7.5, {'$np': ['float32', 7.5]}, {'$np': ['float16', 2.25]}, {'$np': ['float64', 7.5]},
+                      {'$frac': [5, 2]}, {'$dec': '12.75'}):
                 yield {'family': fam, 'ctx': ctx, 'what': what, 'v': v, 'must': True}
     elif fam == 'structure':
         for how in ('no-origin', 'no-channel', 'no-frame', 'frame-without-channels', 'file-id-mismatch',
@@ -224,9 +230,11 @@ def make_spec(c):
         elif w == 'header-id':
             sp['ops'][0]['kw']['fh_id'] = t if fam == 'nonascii' else 'H' * (66 if c['n'] == 256 else 100)
         return sp
-    if fam == 'intrange':
+    if fam in ('intrange', 'fraction'):
         sp = base(ctx)
         what, v = c['what'], c['v']
+        if fam == 'fraction' and what in ('dimension', 'element_limit'):
+            v = [v]
         if what in ('file_set_number', 'file_number', 'descent_number', 'run_number', 'producer_code', 'name_space_version'):
             sp['ops'][1]['kw'][what] = v
         elif what in ('dimension', 'element_limit'):
@@ -399,7 +407,7 @@ def aspect(c):
         return c['where']
     if f == 'nonascii':
         return c['where']
-    if f == 'intrange':
+    if f in ('intrange', 'fraction'):
         return c['what']
     if f == 'window':
         return '+'.join(f"{k}={v}" for k, v in sorted(c['w'].items()))
